@@ -30,8 +30,13 @@ pub fn current_num_threads() -> usize {
     simctx::with(|c| if c.active { c.pool.max(1) } else { 1 })
 }
 
+/// Index of the pool thread the caller runs on; `None` for a thread that is not in the pool.
 pub fn current_thread_index() -> Option<usize> {
-    None
+    if !simctx::active() {
+        return None;
+    }
+    let task = shuttle::current::get_current_task().map(usize::from).unwrap_or(0);
+    iter::slots::of(task)
 }
 
 /// `rayon::join`: both closures run, possibly concurrently.
